@@ -24,7 +24,8 @@ MUST_REACH = ["hessenbergize:n<=2", "householder:alpha_zero", "class:already_hes
 
 C = 1e3
 CLASSES = ["cancelling_tail", "equal_moduli_tail", "gauss", "hessenberg", "upper_tri", "lower_tri", "hermitian", "zero_subcolumns", "zero_matrix", "identity", "int", "sparse",
-           "pure_imag", "single_axis", "rank1", "nilpotent", "scaled_small", "scaled_big", "layout", "tridiag", "unitary", "companion"]
+           "pure_imag", "single_axis", "rank1", "nilpotent", "scaled_small", "scaled_big", "layout", "tridiag", "unitary", "companion",
+           "near_hessenberg", "graded_columns"]
 
 _REACH = None
 
@@ -79,6 +80,16 @@ def make(rng, cls, n):
                         for q in range(t):
                             ax = int(rng.integers(0, 4)); v[q] = 0.0; v[q, ax] = float(rng.choice([-2.0, 2.0]))
                     c[j + 2:, j] = v
+        return refq.qa(c)
+    if cls == "near_hessenberg":
+        # Hessenberg plus a SMALL but far-from-negligible part below the sub-diagonal (relative size 1e-4 .. 1e-12, one size per
+        # column): "negligible" in the property means round-off of the input norm, so these still have to be eliminated
+        c = rng.standard_normal((n, n, 4)) * np.triu(np.ones((n, n)), -1)[..., None]
+        for j in range(max(0, n - 2)):
+            c[j + 2:, j] = rng.standard_normal((n - j - 2, 4)) * 10.0 ** (-float(rng.integers(4, 13)))
+        return refq.qa(c)
+    if cls == "graded_columns":
+        c = rng.standard_normal((n, n, 4)) * (10.0 ** (-rng.integers(0, 10, size=n).astype(float)))[None, :, None]
         return refq.qa(c)
     if cls == "hessenberg":
         c = rng.standard_normal((n, n, 4)) * np.triu(np.ones((n, n)), -1)[..., None]
